@@ -116,7 +116,12 @@ def gen_prefix_group_grammar(rng, terms, start='E', max_nts=3):
         for head in heads:
             prefix = (head,) + tuple(rng.choice(terms) for _ in range(rng.choice([0, 0, 1, 2])))
             if rng.random() < 0.5:
-                alts.extend(_gen_group(rng, terms, later, prefix, 0))
+                group = _gen_group(rng, terms, later, prefix, 0)
+                if rng.random() < 0.35:
+                    # the user lists the alternatives in any order: members of an inner group need not be
+                    # neighbours (a b c | a x y | a b d)
+                    rng.shuffle(group)
+                alts.extend(group)
             else:
                 size = rng.randint(1, min(7, len(terms) + 1))
                 conts = rng.sample(terms, min(size, len(terms)))
